@@ -163,12 +163,17 @@ def nontrivial(case):
 
 GEN = {"kernel": ("theories/Gen/GenEquiv.vo", "kernel of /repo (gene_datum.py, overlap.py, revise_annotation.py, process_genome.py windows): 15 equivalence lemmas"),
        "cache": ("theories/Gen/GenCacheEquiv.vo", "cache decisions of /repo (verify_chromosome_h5_cache, revise_annotation, _is_current, _filter_jobs): 3 equivalence lemmas"),
+       "revise": ("theories/Props/C02code.vo", "recursion of /repo's ReviseAnno (call_merge, merge_by_like + 5 helpers) over data frames: equal to Model.Revise.revise on every group with unique row labels, never raises, 2n+1 calls (Proofs/ReviseCodeP.v)"),
        "cf_worker_run": ("theories/Props/C20code.vo", "control flow of /repo's WorkerProcess.run (+ _send_result) as an interaction program: equal to Model/Worker.v on every script (Proofs/WorkerProgP.v)"),
        "cf_handle_chrome": ("theories/Props/C11code.vo", "control flow of /repo's _ProgressBars.handle_chrome (+ _pop, _collect) as an interaction program: in lockstep with Model/Collector.v under every schedule (Proofs/CollectorProgP.v)")}
 # further property files (theorems about the translated code) whose theorems and Print Assumptions are checked with the property's own
-EXTRA_PROPS = {"C20": ["C20code.v"], "C11": ["C11code.v"]}
+EXTRA_PROPS = {"C20": ["C20code.v"], "C11": ["C11code.v"], "C02": ["C02code.v"], "C03": ["C03float.v"]}
+# axioms of Coq's standard library that the theorems of a property file may depend on (everything else: none)
+STDLIB_REALS = {"ClassicalDedekindReals.sig_forall_dec", "ClassicalDedekindReals.sig_not_dec",
+                "FunctionalExtensionality.functional_extensionality_dep", "Classical_Prop.classic"}
+ALLOWED_AXIOMS = {"C03float.v": STDLIB_REALS}
 # which translated parts each property's theorems rest on
-NEEDS = {"C01": ["kernel"], "C02": ["kernel"], "C03": ["kernel"], "C04": ["kernel"], "C05": ["kernel"], "C06": ["kernel"], "C07": ["kernel"],
+NEEDS = {"C01": ["kernel", "revise"], "C02": ["kernel", "revise"], "C03": ["kernel"], "C04": ["kernel", "revise"], "C05": ["kernel"], "C06": ["kernel"], "C07": ["kernel"],
          "C10": ["kernel"], "C14": ["kernel", "cache"], "C12": ["cache"], "C13": ["cache"], "C17": ["cache"],
          "C20": ["cf_worker_run"], "C11": ["cf_handle_chrome"]}
 
@@ -177,7 +182,7 @@ def standard_obligations(chk, props_file):
     """translate + make (the property's own theorems and the generated equivalences they rest on) + hygiene +
     Print Assumptions of Props/<file>. A break elsewhere in the development does not concern this property."""
     needs = NEEDS.get(chk.pid, [])
-    targets = ["theories/Props/" + props_file + "o"] + [GEN[n][0] for n in needs]
+    targets = ["theories/Props/" + props_file + "o"] + [GEN[n][0] for n in needs] + ["theories/Props/" + x + "o" for x in EXTRA_PROPS.get(chk.pid, [])]
     ok, text, where = common.coq_build(targets)
     for n in needs:
         tok, msg = common.translator_status(n)
@@ -195,6 +200,15 @@ def standard_obligations(chk, props_file):
             return False
         for t in info["theorems"]:
             chk.oblige("theorem %s (Props/%s)" % (t, pf), True)
-        chk.oblige("Print Assumptions (Props/%s): all %d property theorems closed under the global context" % (pf, info["n_print"]),
-                   info["n_print"] > 0 and info["closed"] == info["n_print"] and not info["axioms"], out[-1500:])
+        allowed = ALLOWED_AXIOMS.get(pf, set())
+        used = set(a for blk in info["axioms"] for a in blk)
+        if allowed:
+            chk.oblige("Print Assumptions (Props/%s): the %d property theorems depend only on the standard library's real-number axioms %s" %
+                       (pf, info["n_print"], sorted(used)),
+                       info["n_print"] > 0 and info["closed"] + len(info["axioms"]) == info["n_print"] and used <= allowed and
+                       all(blk for blk in info["axioms"]), out[-1500:])
+            chk.assumptions.append("Props/%s depends on the standard-library axioms %s" % (pf, sorted(used)))
+        else:
+            chk.oblige("Print Assumptions (Props/%s): all %d property theorems closed under the global context" % (pf, info["n_print"]),
+                       info["n_print"] > 0 and info["closed"] == info["n_print"] and not info["axioms"], out[-1500:])
     return True
